@@ -2,13 +2,13 @@
    procedure table for which every hypothesis is discharged, and what the theorem then says about its image.
 
    The program (X source; XConstProp.front only turns put(..) into the system call 1):
-       val put = 1; var g; array a[4];
+       val put = 1; val get = 2; var g; array a[4]; var ch;
        func fd(val k) is if k = 0 then return 7 else return fd(k - 1)
        proc cd(val n, array b) is var t;
        { t := n + 48; put(t, 0); g := g + n; b[n] := t; if n = 0 then skip else cd(n - 1, b) }
-       proc main() is { g := 0; cd(3, a); g := fd(g); g := g + a[2] }
+       proc main() is { g := 0; cd(3, a); g := fd(g); g := g + a[2]; ch := get(0); put(ch, 0) }
    (the global array a is passed by address to the array formal b, which cd assigns through and hands on to its
-   recursive call).  Its image is laid out here as xcmp does (BR _start; DATA 199993; g; a's word; _start: LDAP _exit; BR main; _exit: ..; the
+   recursive call; at the end one byte is read from the console and echoed).  Its image is laid out here as xcmp does (BR _start; DATA 199993; g; a's word; _start: LDAP _exit; BR main; _exit: ..; the
    procedures), from the model's LOWERED code (prologue ++ cs body ++ exit label ++ epilogue, before the
    peepholes -- the code the theorems speak of), by the assembler model AsmLayout.assemble_directives.  All
    hypotheses about the image are established by computation through the ISA's own decoder (XCodegenImage). *)
@@ -20,7 +20,7 @@ Local Open Scope string_scope.
 Local Open Scope Z_scope.
 
 Definition demo_src : program :=
-  {| globals := [DVal "put" (ENum 1); DVar "g"; DArray "a" (ENum 4)];
+  {| globals := [DVal "put" (ENum 1); DVal "get" (ENum 2); DVar "g"; DArray "a" (ENum 4); DVar "ch"];
      procs := [ {| is_func := true; pname := "fd"; formals := [FVal "k"]; locals := [];
                    body := SIf (EBin Eq (EVar "k") (ENum 0)) (SReturn (ENum 7))
                                (SReturn (ECall "fd" [EBin Minus (EVar "k") (ENum 1)])) |};
@@ -32,7 +32,8 @@ Definition demo_src : program :=
                                  SIf (EBin Eq (EVar "n") (ENum 0)) SSkip (SCall "cd" [EBin Minus (EVar "n") (ENum 1); EVar "b"])] |};
                 {| is_func := false; pname := "main"; formals := []; locals := [];
                    body := SSeq [SAssign "g" (ENum 0); SCall "cd" [ENum 3; EVar "a"]; SAssign "g" (ECall "fd" [EVar "g"]);
-                   SAssign "g" (EBin Plus (EVar "g") (ESub "a" (ENum 2)))] |} ] |}.
+                   SAssign "g" (EBin Plus (EVar "g") (ESub "a" (ENum 2)));
+                   SAssign "ch" (ECall "get" [ENum 0]); SCall "put" [EVar "ch"; ENum 0]] |} ] |}.
 
 Definition p_fd : proc :=
   {| is_func := true; pname := "fd"; formals := [FVal "k"]; locals := [];
@@ -45,18 +46,24 @@ Definition p_cd : proc :=
 Definition p_main : proc :=
   {| is_func := false; pname := "main"; formals := []; locals := [];
      body := SSeq [SAssign "g" (ENum 0); SCall "cd" [ENum 3; EVar "a"]; SAssign "g" (ECall "fd" [EVar "g"]);
-                   SAssign "g" (EBin Plus (EVar "g") (ESub "a" (ENum 2)))] |}.
-Definition demo : program := {| globals := [DVal "put" (ENum 1); DVar "g"; DArray "a" (ENum 4)]; procs := [p_fd; p_cd; p_main] |}.
+                   SAssign "g" (EBin Plus (EVar "g") (ESub "a" (ENum 2)));
+                   SAssign "ch" (ESys 2 [ENum 0]); SSys 1 [EVar "ch"; ENum 0]] |}.
+Definition demo : program :=
+  {| globals := [DVal "put" (ENum 1); DVal "get" (ENum 2); DVar "g"; DArray "a" (ENum 4); DVar "ch"]; procs := [p_fd; p_cd; p_main] |}.
 
 (* the program the code generator reads *)
 Lemma demo_front : front demo_src = COk demo.
 Proof. vm_compute. reflexivity. Qed.
-Lemma demo_spec : run_fuel 100 1000 10 demo [] =
-  Behaviour {| outputs := [(0, 51); (0, 50); (0, 49); (0, 48)]; consumed := 0; exit_value := 0 |}.
+Lemma demo_spec : run_fuel 100 1000 10 demo [66; 67] =
+  Behaviour {| outputs := [(0, 51); (0, 50); (0, 49); (0, 48); (0, 66)]; consumed := 1; exit_value := 0 |}.
+Proof. vm_compute. reflexivity. Qed.
+(* at the end of the input get answers 255 and consumes nothing *)
+Lemma demo_spec_eof : run_fuel 100 1000 10 demo [] =
+  Behaviour {| outputs := [(0, 51); (0, 50); (0, 49); (0, 48); (0, 255)]; consumed := 0; exit_value := 0 |}.
 Proof. vm_compute. reflexivity. Qed.
 
-Definition demo_ge : genv := {| g_vals := [("put", 1)]; g_procs := [p_fd; p_cd; p_main]; g_maxdepth := 10 |}.
-Definition demo_gaddr (x : string) : option Z := if String.eqb x "g" then Some 2 else None.
+Definition demo_ge : genv := {| g_vals := [("get", 2); ("put", 1)]; g_procs := [p_fd; p_cd; p_main]; g_maxdepth := 10 |}.
+Definition demo_gaddr (x : string) : option Z := if String.eqb x "g" then Some 2 else if String.eqb x "ch" then Some 4 else None.
 Definition demo_aaddr (x : string) : option Z := if String.eqb x "a" then Some 3 else None.     (* the word of the array's name *)
 Definition demo_abase (x : string) : Z := if String.eqb x "a" then 199996 else 0.               (* its cells: 199996 .. 199999 *)
 Definition demo_alen (x : string) : Z := if String.eqb x "a" then 4 else 0.
@@ -66,7 +73,7 @@ Definition demo_pinfo (x : string) : option pframe :=
   else if String.eqb x "main" then Some {| pf_entry := 101; pf_isfunc := false |}
   else if String.eqb x "fd" then Some {| pf_entry := 102; pf_isfunc := true |} else None.
 Definition L_cd : playout := {| pl_size := 6; pl_nslots := 2; pl_og := 4; pl_exit := 0; pl_n0 := 1 |}.
-Definition L_main : playout := {| pl_size := 4; pl_nslots := 1; pl_og := 3; pl_exit := 20; pl_n0 := 21 |}.
+Definition L_main : playout := {| pl_size := 5; pl_nslots := 1; pl_og := 4; pl_exit := 20; pl_n0 := 21 |}.
 Definition L_fd : playout := {| pl_size := 3; pl_nslots := 0; pl_og := 3; pl_exit := 40; pl_n0 := 41 |}.
 Definition body_code (p : proc) (L : playout) : option (list instr * label) :=
   cs demo_pinfo (frame_venv demo_gaddr p (pl_size L)) demo_pool (pl_size L) (pl_nslots L) (frame_aenv demo_aaddr p (pl_size L)) (first_temp p) (pl_og L)
@@ -78,8 +85,10 @@ Definition code_of (p : proc) (L : playout) : list instr :=
    optimised ones are what `xcmp -S` prints (tools/c01.py re-checks the lists below against the real xcmp) *)
 (* X-SOURCE-BEGIN
 val put = 1;
+val get = 2;
 var g;
 array a[4];
+var ch;
 func fd(val k) is
   if k = 0 then return 7 else return fd(k - 1)
 proc cd(val n, array b) is
@@ -94,7 +103,9 @@ proc main() is
 { g := 0;
   cd(3, a);
   g := fd(g);
-  g := g + a[2]
+  g := g + a[2];
+  ch := get(0);
+  put(ch, 0)
 }
 X-SOURCE-END *)
 Example demo_cproc_cd : cproc demo_pinfo demo_gaddr demo_aaddr demo_pool p_cd 6 4 = Some
@@ -105,11 +116,12 @@ Example demo_cproc_cd : cproc demo_pinfo demo_gaddr demo_aaddr demo_pool p_cd 6 
    1; BR 2; LABEL 1; LDAM 1; LDAI 7; LDBC 1; SUB; LDBM 1; STAI 1; LDAM 1; LDAI 8; LDBM 1; STAI 2; LDAP 5; BR 100;
    LABEL 5; LABEL 2; LABEL 0; LDBM 1; LDAC 6; ADD; STAM 1; LDBI 6; BRB].
 Proof. vm_compute. reflexivity. Qed.
-Example demo_cproc_main : cproc demo_pinfo demo_gaddr demo_aaddr demo_pool p_main 4 3 = Some
+Example demo_cproc_main : cproc demo_pinfo demo_gaddr demo_aaddr demo_pool p_main 5 4 = Some
   (* XCMP-LISTING main *)
-  [LDBM 1; STAI 0; LDAC (-4); ADD; STAM 1; LDAC 0; STAM 2; LDAC 3; LDBM 1; STAI 1; LDAM 3; LDBM 1; STAI 2; LDAP 1; BR
+  [LDBM 1; STAI 0; LDAC (-5); ADD; STAM 1; LDAC 0; STAM 2; LDAC 3; LDBM 1; STAI 1; LDAM 3; LDBM 1; STAI 2; LDAP 1; BR
    100; LABEL 1; LDAM 2; LDBM 1; STAI 2; LDAP 2; BR 102; LABEL 2; LDAM 1; LDAI 1; STAM 2; LDAM 3; LDAI 2; LDBM 1; STAI
-   3; LDAM 2; LDBM 1; LDBI 3; ADD; STAM 2; LABEL 0; LDBM 1; LDAC 4; ADD; STAM 1; LDBI 4; BRB].
+   4; LDAM 2; LDBM 1; LDBI 4; ADD; STAM 2; LDAC 0; LDBM 1; STAI 2; LDAC 2; SVC; LDAM 1; LDAI 1; STAM 4; LDAM 4; LDBM
+   1; STAI 2; LDAC 0; LDBM 1; STAI 3; LDAC 1; SVC; LDAM 1; LDAI 1; LABEL 0; LDBM 1; LDAC 5; ADD; STAM 1; LDBI 5; BRB].
 Proof. vm_compute. reflexivity. Qed.
 Example demo_cproc_fd : cproc demo_pinfo demo_gaddr demo_aaddr demo_pool p_fd 3 3 = Some
   (* XCMP-LISTING fd *)
@@ -120,7 +132,7 @@ Proof. vm_compute. reflexivity. Qed.
 
 (* ---- the image *)
 Definition demo_dirs : list directive :=
-  [DRef TBR "_start" true; DData 199993; DLabel LId "_g"; DData 0; DData 199996; DData 0;
+  [DRef TBR "_start" true; DData 199993; DLabel LId "_g"; DData 0; DData 199996; DData 0; DData 0;
    DLabel LId "_start"; DRef TLDAP "_exit" true; DRef TBR (lname 101) true;
    DLabel LId "_exit"; DImm TLDBM 1; DImm TLDAC 0; DImm TSTAI 2; DOpr TSVC] ++
   [DLabel LFunc "fd"; DLabel LId (lname 102)] ++ map dir_of (code_of p_fd L_fd) ++
@@ -128,16 +140,17 @@ Definition demo_dirs : list directive :=
   [DLabel LProc "main"; DLabel LId (lname 101)] ++ map dir_of (code_of p_main L_main).
 
 Definition demo_bytes : list Z :=
-  [225; 146; 0; 0; 57; 13; 3; 0; 0; 0; 0; 0; 60; 13; 3; 0; 0; 0; 0; 0; 82; 230; 155; 17; 48; 130; 211; 17; 128; 255;
-   61; 209; 33; 1; 101; 162; 48; 145; 49; 163; 55; 157; 156; 1; 101; 65; 210; 17; 130; 82; 254; 151; 1; 97; 144; 17;
-   132; 51; 209; 33; 115; 208; 17; 128; 255; 58; 209; 33; 1; 103; 227; 64; 209; 17; 133; 1; 101; 17; 130; 48; 17; 131;
-   49; 211; 1; 97; 2; 17; 119; 209; 34; 1; 103; 17; 120; 209; 17; 132; 1; 101; 17; 116; 128; 1; 103; 162; 48; 145; 49;
-   161; 157; 1; 103; 65; 210; 17; 129; 1; 104; 17; 130; 82; 252; 146; 17; 54; 209; 33; 118; 208; 17; 128; 255; 60;
-   209; 33; 48; 34; 51; 17; 129; 3; 17; 130; 82; 250; 155; 2; 17; 130; 82; 248; 146; 1; 97; 34; 3; 98; 17; 131; 2; 17;
-   115; 209; 34; 17; 52; 209; 33; 116; 208; 0].
+  [225; 150; 0; 0; 57; 13; 3; 0; 0; 0; 0; 0; 60; 13; 3; 0; 0; 0; 0; 0; 0; 0; 0; 0; 82; 230; 155; 17; 48; 130; 211; 17;
+   128; 255; 61; 209; 33; 1; 101; 162; 48; 145; 49; 163; 55; 157; 156; 1; 101; 65; 210; 17; 130; 82; 254; 151; 1; 97;
+   144; 17; 132; 51; 209; 33; 115; 208; 17; 128; 255; 58; 209; 33; 1; 103; 227; 64; 209; 17; 133; 1; 101; 17; 130; 48;
+   17; 131; 49; 211; 1; 97; 2; 17; 119; 209; 34; 1; 103; 17; 120; 209; 17; 132; 1; 101; 17; 116; 128; 1; 103; 162; 48;
+   145; 49; 161; 157; 1; 103; 65; 210; 17; 129; 1; 104; 17; 130; 82; 252; 146; 17; 54; 209; 33; 118; 208; 17; 128;
+   255; 59; 209; 33; 48; 34; 51; 17; 129; 3; 17; 130; 82; 250; 155; 2; 17; 130; 82; 248; 146; 1; 97; 34; 3; 98; 17;
+   132; 2; 17; 116; 209; 34; 48; 17; 130; 50; 211; 1; 97; 36; 4; 17; 130; 48; 17; 131; 49; 211; 1; 97; 17; 53; 209;
+   33; 117; 208; 0; 0; 0].
 Definition demo_labs : list (label * Z) :=
-  [(0, 124); (1, 111); (2, 124); (3, 108); (4, 109); (5, 124); (20, 165); (21, 147); (22, 153); (40, 55); (41, 43);
-   (42, 55); (43, 38); (44, 39); (45, 52); (100, 62); (101, 130); (102, 27)].
+  [(0, 128); (1, 115); (2, 128); (3, 112); (4, 113); (5, 128); (20, 187); (21, 151); (22, 157); (40, 59); (41, 47);
+   (42, 59); (43, 42); (44, 43); (45, 56); (100, 66); (101, 134); (102, 31)].
 Definition demo_label_names : list label := [0; 1; 2; 3; 4; 5; 20; 21; 22; 40; 41; 42; 43; 44; 45; 100; 101; 102].
 (* the assembler model lays the directives out as these bytes, with the labels there *)
 Lemma demo_assembled : exists o, assemble_directives demo_dirs [] = Ok o /\ ao_image o = demo_bytes /\
@@ -149,18 +162,18 @@ Fixpoint lookup (l : label) (t : list (label * Z)) : Z :=
 Definition demo_lab (l : label) : Z := lookup l demo_labs.
 Definition demo_m0 : WMap.t := mem_of demo_bytes.
 Definition demo_img : WMap.t := bytes_map demo_bytes.
-Definition demo_P (a : Z) : Prop := 5 <= a < 43.      (* the code words *)
+Definition demo_P (a : Z) : Prop := 6 <= a < 49.      (* the code words *)
 Definition demo_stack_lo : Z := 1000.
 Definition demo_stack_hi : Z := 199996.   (* the root frame ends here; the array's cells follow *)
 Definition demo_maxframe : Z := 6.
 
 (* the image, run by the ISA from reset, shows the behaviour of the spec *)
-Lemma demo_image_runs : exists s, Isa.run 600 (boot (words_of_bytes demo_bytes)) {| console := []; files := fun _ => [] |} [] =
-  ([Write 51 0; Write 50 0; Write 49 0; Write 48 0; Exit 0], {| console := []; files := fun _ => [] |}, s, Exited 0).
+Lemma demo_image_runs : exists s, Isa.run 700 (boot (words_of_bytes demo_bytes)) {| console := [66; 67]; files := fun _ => [] |} [] =
+  ([Write 51 0; Write 50 0; Write 49 0; Write 48 0; Read 0 66; Write 66 0; Exit 0], {| console := [67]; files := fun _ => [] |}, s, Exited 0).
 Proof. vm_compute. eexists. reflexivity. Qed.
 
 (* ---- the hypotheses of XCodegenCall.Prog *)
-Lemma demo_holds lo n : bytes_ok demo_m0 demo_img lo n = true -> 0 <= lo -> 20 <= lo -> lo + Z.of_nat n <= 172 ->
+Lemma demo_holds lo n : bytes_ok demo_m0 demo_img lo n = true -> 0 <= lo -> 24 <= lo -> lo + Z.of_nat n <= 196 ->
   forall m, C demo_P demo_m0 m -> holds m demo_img lo (lo + Z.of_nat n).
 Proof.
   intros Hb H0 Hlo Hhi. apply bytes_ok_holds; [exact Hb | exact H0|].
@@ -168,25 +181,25 @@ Proof.
 Qed.
 
 Lemma demo_code_fd : exists bc n', body_code p_fd L_fd = Some (bc, n') /\
-  code_at (C demo_P demo_m0) demo_lab 27 (pro 3 ++ bc ++ epif 40 3) 62.
+  code_at (C demo_P demo_m0) demo_lab 31 (pro 3 ++ bc ++ epif 40 3) 66.
 Proof.
   eexists. eexists. split; [vm_compute; reflexivity|].
-  apply (code_chk_sound (C demo_P demo_m0) _ demo_lab demo_img 27 62); [vm_compute; reflexivity | lia | unfold W; lia|].
-  change 62 with (27 + Z.of_nat 35). apply demo_holds; [vm_compute; reflexivity | lia | lia | cbn; lia].
+  apply (code_chk_sound (C demo_P demo_m0) _ demo_lab demo_img 31 66); [vm_compute; reflexivity | lia | unfold W; lia|].
+  change 66 with (31 + Z.of_nat 35). apply demo_holds; [vm_compute; reflexivity | lia | lia | cbn; lia].
 Qed.
 Lemma demo_code_cd : exists bc n', body_code p_cd L_cd = Some (bc, n') /\
-  code_at (C demo_P demo_m0) demo_lab 62 (pro 6 ++ bc ++ epi 0 6) 130.
+  code_at (C demo_P demo_m0) demo_lab 66 (pro 6 ++ bc ++ epi 0 6) 134.
 Proof.
   eexists. eexists. split; [vm_compute; reflexivity|].
-  apply (code_chk_sound (C demo_P demo_m0) _ demo_lab demo_img 62 130); [vm_compute; reflexivity | lia | unfold W; lia|].
-  change 130 with (62 + Z.of_nat 68). apply demo_holds; [vm_compute; reflexivity | lia | lia | cbn; lia].
+  apply (code_chk_sound (C demo_P demo_m0) _ demo_lab demo_img 66 134); [vm_compute; reflexivity | lia | unfold W; lia|].
+  change 134 with (66 + Z.of_nat 68). apply demo_holds; [vm_compute; reflexivity | lia | lia | cbn; lia].
 Qed.
 Lemma demo_code_main : exists bc n', body_code p_main L_main = Some (bc, n') /\
-  code_at (C demo_P demo_m0) demo_lab 130 (pro 4 ++ bc ++ epi 20 4) 171.
+  code_at (C demo_P demo_m0) demo_lab 134 (pro 5 ++ bc ++ epi 20 5) 193.
 Proof.
   eexists. eexists. split; [vm_compute; reflexivity|].
-  apply (code_chk_sound (C demo_P demo_m0) _ demo_lab demo_img 130 171); [vm_compute; reflexivity | lia | unfold W; lia|].
-  change 171 with (130 + Z.of_nat 41). apply demo_holds; [vm_compute; reflexivity | lia | lia | cbn; lia].
+  apply (code_chk_sound (C demo_P demo_m0) _ demo_lab demo_img 134 193); [vm_compute; reflexivity | lia | unfold W; lia|].
+  change 193 with (134 + Z.of_nat 59). apply demo_holds; [vm_compute; reflexivity | lia | lia | cbn; lia].
 Qed.
 
 Lemma demo_simple_cd : simple_proc demo_gaddr demo_aaddr p_cd ["n"; "b"] ["t"].
@@ -212,24 +225,29 @@ Proof.
     + apply String.eqb_eq in E1. subst p. inversion Hp; subst pi. cbn [pf_isfunc pf_entry].
       split; [vm_compute; discriminate|].
       destruct demo_code_cd as (bc & n' & Hb & Hc).
-      exists p_cd, ["n"; "b"], ["t"], L_cd, bc, n', 130. split; [reflexivity|]. split; [reflexivity|].
+      exists p_cd, ["n"; "b"], ["t"], L_cd, bc, n', 134. split; [reflexivity|]. split; [reflexivity|].
       split; [exact demo_simple_cd|]. split; [vm_compute; repeat split; discriminate|]. split; [exact Hb|]. split; [exact Hc | reflexivity].
     + apply String.eqb_eq in E2. subst p. inversion Hp; subst pi. cbn [pf_isfunc pf_entry].
       split; [vm_compute; discriminate|].
       destruct demo_code_main as (bc & n' & Hb & Hc).
-      exists p_main, [], [], L_main, bc, n', 171. split; [reflexivity|]. split; [reflexivity|].
+      exists p_main, [], [], L_main, bc, n', 193. split; [reflexivity|]. split; [reflexivity|].
       split; [exact demo_simple_main|]. split; [vm_compute; repeat split; discriminate|]. split; [exact Hb|]. split; [exact Hc | reflexivity].
     + apply String.eqb_eq in E3. subst p. inversion Hp; subst pi. cbn [pf_isfunc pf_entry].
       split; [vm_compute; discriminate|].
       destruct demo_code_fd as (bc & n' & Hb & Hc).
-      exists p_fd, ["k"], [], L_fd, bc, n', 62. split; [reflexivity|]. split; [reflexivity|].
+      exists p_fd, ["k"], [], L_fd, bc, n', 66. split; [reflexivity|]. split; [reflexivity|].
       split; [exact demo_simple_fd|]. split; [vm_compute; repeat split; discriminate|]. split; [exact Hb|]. split; [exact Hc | reflexivity].
-  - intros x a Hx. unfold demo_gaddr in Hx. destruct (String.eqb x "g") eqn:E; [|discriminate].
-    apply String.eqb_eq in E. subst x. inversion Hx; subst a. unfold demo_P, demo_stack_lo.
-    split; [reflexivity|]. split; [lia|]. split; [lia|]. split; [lia | reflexivity].
+  - intros x a Hx. unfold demo_gaddr in Hx. destruct (String.eqb x "g") eqn:E; [|destruct (String.eqb x "ch") eqn:E'; [|discriminate]].
+    + apply String.eqb_eq in E. subst x. inversion Hx; subst a. unfold demo_P, demo_stack_lo.
+      split; [reflexivity|]. split; [lia|]. split; [lia|]. split; [lia | reflexivity].
+    + apply String.eqb_eq in E'. subst x. inversion Hx; subst a. unfold demo_P, demo_stack_lo.
+      split; [reflexivity|]. split; [lia|]. split; [lia|]. split; [lia | reflexivity].
   - intros x y a b Hx Hy Hne. unfold demo_gaddr in Hx, Hy.
-    destruct (String.eqb x "g") eqn:E1; [|discriminate]. destruct (String.eqb y "g") eqn:E2; [|discriminate].
-    apply String.eqb_eq in E1. apply String.eqb_eq in E2. congruence.
+    destruct (String.eqb x "g") eqn:E1; [|destruct (String.eqb x "ch") eqn:E1'; [|discriminate]];
+      (destruct (String.eqb y "g") eqn:E2; [|destruct (String.eqb y "ch") eqn:E2'; [|discriminate]]);
+      inversion Hx; inversion Hy; subst; try lia.
+    + apply String.eqb_eq in E1. apply String.eqb_eq in E2. congruence.
+    + apply String.eqb_eq in E1'. apply String.eqb_eq in E2'. congruence.
   - unfold demo_stack_lo, demo_P. split; [lia|]. intros a Ha. lia.
   - unfold demo_P. lia.
   - intros v a H. discriminate H.
@@ -244,7 +262,7 @@ Proof.
     apply String.eqb_eq in E. subst a. inversion Ha; subst w.
     change (demo_abase "a") with 199996. change (demo_alen "a") with 4. unfold demo_P, demo_stack_lo, demo_stack_hi.
     split; [reflexivity|]. split; [lia|]. split; [lia|]. split; [lia|]. split.
-    + intros x g Hg. unfold demo_gaddr in Hg. destruct (String.eqb x "g"); [inversion Hg; lia | discriminate].
+    + intros x g Hg. unfold demo_gaddr in Hg. destruct (String.eqb x "g"); [inversion Hg; lia | destruct (String.eqb x "ch"); [inversion Hg; lia | discriminate]].
     + intros i Hi. split; [unfold MEMW; lia | lia].
   - intros a w a' w' i i' Ha Ha'. unfold demo_aaddr in Ha, Ha'.
     destruct (String.eqb a "a") eqn:E; [|discriminate]. destruct (String.eqb a' "a") eqn:E'; [|discriminate].
@@ -252,10 +270,10 @@ Proof.
 Qed.
 
 (* ---- what the theorems say about the image: main's body, run from main's frame *)
-Definition demo_sp : Z := 199989.        (* main's frame: the initial stack pointer 199993 less main's 4 words *)
+Definition demo_sp : Z := 199988.        (* main's frame: the initial stack pointer 199993 less main's 5 words *)
 Definition demo_st0 : state :=
-  {| gvars := [("g", Vundef)]; garrs := [("a", {| alen := 4; acells := PositiveMap.empty value |})];
-     out_rev := []; input := []; ncons := 0%nat; budget := 1000; cur := eff0;
+  {| gvars := [("ch", Vundef); ("g", Vundef)]; garrs := [("a", {| alen := 4; acells := PositiveMap.empty value |})];
+     out_rev := []; input := [66; 67]; ncons := 0%nat; budget := 1000; cur := eff0;
      stk := [{| f_vars := []; f_vals := []; f_depth := 1 |}; {| f_vars := []; f_vals := []; f_depth := 0 |}] |}.
 Definition demo_m : WMap.t := wr demo_m0 1 demo_sp.
 
@@ -265,18 +283,21 @@ Proof.
   unfold demo_stack_lo, demo_stack_hi, demo_sp, MEMW. cbn. lia.
 Qed.
 
-Lemma demo_rel : Rel demo_pinfo (Dq_of demo_ge demo_stack_lo demo_maxframe demo_sp) (frame_venv demo_gaddr p_main 4)
-                     (frame_aenv demo_aaddr p_main 4) (garr_of demo_aaddr) demo_abase demo_alen demo_ge demo_P demo_m0 demo_sp demo_st0 demo_m.
+Lemma demo_rel : Rel demo_pinfo (Dq_of demo_ge demo_stack_lo demo_maxframe demo_sp) (frame_venv demo_gaddr p_main 5)
+                     (frame_aenv demo_aaddr p_main 5) (garr_of demo_aaddr) demo_abase demo_alen demo_ge demo_P demo_m0 demo_sp demo_st0 demo_m.
 Proof.
   split; [|split; [|split; [|split]]].
   - apply Cm_wr; [intros a _ _; reflexivity | lia | unfold demo_P; lia].
   - apply rd_wr_same.
   - split; [split | split].
     + intros x a Hx. unfold frame_venv in Hx. cbn in Hx. unfold demo_gaddr in Hx.
-      destruct (String.eqb x "g") eqn:E; [|discriminate]. apply String.eqb_eq in E. subst x. inversion Hx; subst a.
-      split; [reflexivity|]. split; [reflexivity|]. split; [reflexivity|]. exists Vundef. split; [reflexivity | left; reflexivity].
+      destruct (String.eqb x "g") eqn:E; [|destruct (String.eqb x "ch") eqn:E'; [|discriminate]].
+      * apply String.eqb_eq in E. subst x. inversion Hx; subst a.
+        split; [reflexivity|]. split; [reflexivity|]. split; [reflexivity|]. exists Vundef. split; [reflexivity | left; reflexivity].
+      * apply String.eqb_eq in E'. subst x. inversion Hx; subst a.
+        split; [reflexivity|]. split; [reflexivity|]. split; [reflexivity|]. exists Vundef. split; [reflexivity | left; reflexivity].
     + intros x k Hx. unfold frame_venv in Hx. cbn in Hx. unfold demo_gaddr in Hx.
-      destruct (String.eqb x "g"); discriminate.
+      destruct (String.eqb x "g"); [discriminate|]. destruct (String.eqb x "ch"); discriminate.
     + intros a l Hal. unfold frame_aenv in Hal. cbn in Hal. unfold demo_aaddr in Hal.
       destruct (String.eqb a "a") eqn:E; [|discriminate]. apply String.eqb_eq in E. subst a. inversion Hal; subst l.
       exists "a". split; [right; split; [reflexivity|]; split; [reflexivity|]; split; [discriminate | reflexivity]|].
@@ -289,48 +310,55 @@ Proof.
   - unfold Dq_of, demo_stack_lo, demo_maxframe, demo_sp. cbn. lia.
 Qed.
 
-(* main's body sits at bytes [136, 165) of the image *)
-Lemma demo_body_main : exists bc n', body_code p_main L_main = Some (bc, n') /\ code_at (C demo_P demo_m0) demo_lab 136 bc 165.
+(* main's body sits at bytes [140, 187) of the image *)
+Lemma demo_body_main : exists bc n', body_code p_main L_main = Some (bc, n') /\ code_at (C demo_P demo_m0) demo_lab 140 bc 187.
 Proof.
   eexists. eexists. split; [vm_compute; reflexivity|].
-  apply (code_chk_sound (C demo_P demo_m0) _ demo_lab demo_img 136 165); [vm_compute; reflexivity | lia | unfold W; lia|].
-  change 165 with (136 + Z.of_nat 29). apply demo_holds; [vm_compute; reflexivity | lia | lia | cbn; lia].
+  apply (code_chk_sound (C demo_P demo_m0) _ demo_lab demo_img 140 187); [vm_compute; reflexivity | lia | unfold W; lia|].
+  change 187 with (140 + Z.of_nat 47). apply demo_holds; [vm_compute; reflexivity | lia | lia | cbn; lia].
 Qed.
 
-(* The theorem applied: from main's frame (stack pointer word = 199989, g not yet assigned, nothing in the array),
-   the ISA runs the code of main's body `g := 0; cd(3, a); g := fd(g); g := g + a[2]` -- four activations of the
-   procedure cd, each with prologue, output, an assignment to an element of the global array through the array
-   formal b (whose frame word holds the address of a's cells), recursive call handing b on, and epilogue, then seven activations of the function fd, each returning its result through the caller's outgoing
-   word, then a read of the array -- to the end of that code, emitting exactly the bytes "3210" on stream 0; the
-   stack pointer word is 199989 again, g's word holds 57 (= fd(6) + a[2] = 7 + 50) and the cell of a[2] holds 50. *)
-Theorem demo_main_body_runs : forall a b inp, exists a' b' m',
-  runs inp (mk 136 a b 0 demo_m) [Write 51 0; Write 50 0; Write 49 0; Write 48 0] inp (mk 165 a' b' 0 m') /\
-  rd m' 1 = 199989 /\ rd m' 2 = 57 /\ rd m' 199998 = 50.
+(* The theorem applied: from main's frame (stack pointer word = 199988, g and ch not yet assigned, nothing in the
+   array, the console holding the bytes 66 67), the ISA runs the code of main's body
+   `g := 0; cd(3, a); g := fd(g); g := g + a[2]; ch := get(0); put(ch, 0)` -- four activations of the procedure cd, each
+   with prologue, output, an assignment to an element of the global array through the array formal b (whose frame word
+   holds the address of a's cells), recursive call handing b on, and epilogue, then seven activations of the function
+   fd, each returning its result through the caller's outgoing word, then a read of the array, then the system call
+   get, which takes one byte from the console, and put, which echoes it -- to the end of that code; the outputs among
+   its events are exactly the bytes "3210B" on stream 0, the console is left with the byte 67; the stack pointer word
+   is 199988 again, g's word holds 57 (= fd(6) + a[2] = 7 + 50), ch's word the byte 66 and the cell of a[2] holds 50. *)
+Theorem demo_main_body_runs : forall a b inp, console inp = [66; 67] -> exists evs a' b' m',
+  runs inp (mk 140 a b 0 demo_m) evs {| console := [67]; files := files inp |} (mk 187 a' b' 0 m') /\
+  writes evs = [(0, 51); (0, 50); (0, 49); (0, 48); (0, 66)] /\
+  rd m' 1 = 199988 /\ rd m' 2 = 57 /\ rd m' 4 = 66 /\ rd m' 199998 = 50.
 Proof.
-  intros a b inp.
+  intros a b inp Hcon.
   destruct demo_hyps as (H1 & H2 & H3 & H4 & H5 & H6 & H7 & H8 & H9 & H10 & H11).
   pose proof (stmt_calls_closed demo_ge demo_gaddr demo_aaddr demo_abase demo_alen demo_pool demo_P demo_m0 demo_lab demo_pinfo demo_stack_lo
                 demo_stack_hi demo_maxframe H1 H2 H3 H4 H5 H6 H7 H8 H9 H10 H11 100%nat p_main [] [] L_main demo_sp demo_frame_main) as Hok.
   destruct demo_body_main as (bc & n' & Hb & Hc).
   assert (He : exists st', exec 100 demo_ge (body p_main) demo_st0 = Ret Normal st' /\
-                           out_rev st' = [(0, 48); (0, 49); (0, 50); (0, 51)] /\ assoc "g" (gvars st') = Some (Vint 57) /\
+                           out_rev st' = [(0, 66); (0, 48); (0, 49); (0, 50); (0, 51)] /\ input st' = [67] /\
+                           assoc "g" (gvars st') = Some (Vint 57) /\ assoc "ch" (gvars st') = Some (Vint 66) /\
                            exists ar, assoc "a" (garrs st') = Some ar /\ PositiveMap.find (cell 2) (acells ar) = Some (Vint 50)).
-  { vm_compute. eexists. split; [reflexivity|]. split; [reflexivity|]. split; [reflexivity|]. eexists. split; reflexivity. }
-  destruct He as (st' & He & Hout & Hg & ar & Har & Hcl).
+  { vm_compute. eexists. split; [reflexivity|]. split; [reflexivity|]. split; [reflexivity|]. split; [reflexivity|]. split; [reflexivity|].
+    eexists. split; reflexivity. }
+  destruct He as (st' & He & Hout & Hinp & Hg & Hch & ar & Har & Hcl).
   assert (Hx : 0 <= demo_lab (pl_exit L_main) < W) by (vm_compute; split; [discriminate | reflexivity]).
   destruct (stmt_normal demo_pinfo (Fr_of demo_stack_lo demo_sp) (Dq_of demo_ge demo_stack_lo demo_maxframe demo_sp)
               (frame_venv demo_gaddr p_main (pl_size L_main)) (frame_aenv demo_aaddr p_main (pl_size L_main)) (garr_of demo_aaddr) demo_abase demo_alen demo_pool
               (pl_size L_main) (pl_nslots L_main) (first_temp p_main) (pl_og L_main) (pl_exit L_main) demo_ge demo_P demo_m0 demo_lab demo_sp
-              100%nat Hok (body p_main) (pl_n0 L_main) bc n' demo_st0 st' Hb He demo_m 136 165 a b inp
-              demo_rel Hc ltac:(lia) ltac:(unfold W; lia) Hx)
+              100%nat Hok (body p_main) (pl_n0 L_main) bc n' demo_st0 st' Hb He demo_m 140 187 a b inp
+              demo_rel Hcon Hc ltac:(lia) ltac:(unfold W; lia) Hx)
     as (outs & a' & b' & m' & R & HR' & Hpost & _).
-  exists a', b', m'.
+  exists outs, a', b', m'.
   destruct Hpost as (P1 & _). rewrite Hout in P1. cbn [out_rev demo_st0] in P1. rewrite app_nil_r in P1.
-  assert (Houts : outs = [(0, 51); (0, 50); (0, 49); (0, 48)]).
-  { rewrite <- (rev_involutive outs), <- P1. reflexivity. }
-  subst outs. split; [exact R|].
-  destruct HR' as (_ & S1 & ((HVg & _) & (_ & HVa)) & _). split; [exact S1|]. split.
+  unfold adv in R. rewrite Hinp in R. split; [exact R|].
+  split; [rewrite <- (rev_involutive (writes outs)), <- P1; reflexivity|].
+  destruct HR' as (_ & S1 & ((HVg & _) & (_ & HVa)) & _). split; [exact S1|]. split; [|split].
   - destruct (HVg "g" 2 eq_refl) as (_ & _ & _ & v & Hv & Hval). rewrite Hg in Hv. inversion Hv; subst v.
+    destruct Hval as [Hu|(z & Hz & _ & Hw)]; [discriminate|]. inversion Hz; subst z. rewrite Hw. reflexivity.
+  - destruct (HVg "ch" 4 eq_refl) as (_ & _ & _ & v & Hv & Hval). rewrite Hch in Hv. inversion Hv; subst v.
     destruct Hval as [Hu|(z & Hz & _ & Hw)]; [discriminate|]. inversion Hz; subst z. rewrite Hw. reflexivity.
   - destruct (HVa "a" eq_refl) as (_ & _ & ar' & Har' & Hl & Hcells). rewrite Har in Har'. inversion Har'; subst ar'.
     assert (Hr : 0 <= 2 < alen ar) by (rewrite Hl; change (demo_alen "a") with 4; lia).
@@ -339,7 +367,7 @@ Qed.
 
 (* ---------------------------------------------------------------- the demo through model_compile (XCodegenProgram.v) *)
 Definition demo_frames : params :=      (* size, usable slots, outgoing words: xcmp's numbers; no pool constants *)
-  {| p_frames := fun x => if String.eqb x "cd" then Some (6, 2, 4) else if String.eqb x "main" then Some (4, 1, 3)
+  {| p_frames := fun x => if String.eqb x "cd" then Some (6, 2, 4) else if String.eqb x "main" then Some (5, 1, 4)
                           else if String.eqb x "fd" then Some (3, 0, 3) else None;
      p_pool := [] |}.
 
@@ -347,26 +375,35 @@ Definition demo_frames : params :=      (* size, usable slots, outgoing words: x
    real xcmp writes for the X source above *)
 Example demo_model_image_opt : model_compile demo_frames true demo = Some
   (* XCMP-IMAGE *)
-  [37601; 199993; 0; 199996; 0; 295167570; 299074096; 3510501248; 815949089; 933441937; 1694604445; 2182206017;
+  [38625; 199993; 0; 199996; 0; 0; 295167570; 299074096; 3510501248; 815949089; 933441937; 1694604445; 2182206017;
    26803794; 2215743585; 1931596083; 4286583248; 1730269498; 298926307; 813830533; 3543237393; 285368577; 19059063;
    3514306919; 1694598161; 25195537; 2435883623; 27107633; 298991975; 292028801; 2516341378; 567358993; 2148651126;
-   567360767; 288563760; 2182153089; 43973202; 4166156817; 576782742; 2198954499; 3513979138; 3509850402; 13661217].
+   567360511; 288563760; 2182153089; 43973202; 4166156817; 576782742; 2215731715; 3514044674; 2182164514; 1627509554;
+   2182153252; 830673200; 291570131; 1965150517; 208].
 Proof. vm_compute. reflexivity. Qed.
 
 (* opt = false: the validated image of the lowered code, the one program_correct speaks of *)
 Definition demo_image : list Z :=
-  [37601; 199993; 0; 199996; 0; 295429714; 299074096; 3510501248; 2724528417; 2737934640; 27041079; 298991973;
+  [38625; 199993; 0; 199996; 0; 0; 295429714; 299074096; 3510501248; 2724528417; 2737934640; 27041079; 298991973;
    2550026882; 294674689; 567358340; 2148651123; 567360255; 1088644865; 25498065; 813830501; 3543237393; 285368577;
    19059063; 3514306919; 1694598161; 25195537; 2435883623; 27107633; 298991975; 292028801; 2466009730; 567358993;
-   2148651126; 567360767; 288563760; 2182153089; 43776594; 4166156817; 576782738; 2198954499; 3513979138; 3509850402;
-   13661217].
+   2148651126; 567360511; 288563760; 2182153089; 43776594; 4166156817; 576782738; 2215731715; 3514044674; 2182164514;
+   1627509554; 2182153252; 830673200; 291570131; 1965150517; 208].
 Lemma demo_model_image : model_compile demo_frames false demo = Some demo_image.
 Proof. vm_compute. reflexivity. Qed.
 
 (* the end-to-end theorem applied to the demo: its image shows the spec's behaviour -- from program_correct, not by
-   running the ISA *)
+   running the ISA.  With the console bytes 66 67 it writes "3210B" and has consumed one byte; with an empty console
+   get answers 255, so it writes "3210" and the byte 255, and has consumed nothing *)
 Theorem demo_end_to_end : exists n,
-  isa_shows demo_image [] n {| outputs := [(0, 51); (0, 50); (0, 49); (0, 48)]; consumed := 0; exit_value := 0 |}.
+  isa_shows demo_image [66; 67] n {| outputs := [(0, 51); (0, 50); (0, 49); (0, 48); (0, 66)]; consumed := 1; exit_value := 0 |}.
+Proof.
+  apply (program_correct demo_frames demo [66; 67] _ demo_image); [|exact demo_model_image].
+  apply (run_of_smaller_fuel 100); [unfold default_fuel; apply Nat2Z.inj_le; rewrite Z2Nat.id; lia|].
+  vm_compute. reflexivity.
+Qed.
+Theorem demo_end_to_end_eof : exists n,
+  isa_shows demo_image [] n {| outputs := [(0, 51); (0, 50); (0, 49); (0, 48); (0, 255)]; consumed := 0; exit_value := 0 |}.
 Proof.
   apply (program_correct demo_frames demo [] _ demo_image); [|exact demo_model_image].
   apply (run_of_smaller_fuel 100); [unfold default_fuel; apply Nat2Z.inj_le; rewrite Z2Nat.id; lia|].
